@@ -101,6 +101,19 @@ def finding_matches(entry, pid, signature):
     return True
 
 
+def load_baseline(pid):
+    p = os.path.join(HERE, "baseline", f"{pid}.json")
+    if not os.path.exists(p):
+        return set()
+    return set(json.load(open(p))["discharged"])
+
+
+def write_baseline(pid, names):
+    os.makedirs(os.path.join(HERE, "baseline"), exist_ok=True)
+    with open(os.path.join(HERE, "baseline", f"{pid}.json"), "w") as f:
+        json.dump({"comment": "obligations discharged on the reference tree (written only with VERIF_WRITE_BASELINE=1, committed by hand)", "discharged": names}, f, indent=0)
+
+
 def write_replay(pid, payload):
     d = os.path.join(HERE, "replays", pid)
     os.makedirs(d, exist_ok=True)
